@@ -76,49 +76,16 @@ func init() {
 	}
 }
 
-// sub-classes: the part of a diagnostic that says which Go front-end rule was applied, without the
-// operands. A listed finding covers one (family, rule) pair, so that a regression in another rule of
-// the same family (say, assignability in a return statement instead of in a map index) is reported.
-var subRes = []struct {
-	re   *regexp.Regexp
-	name string
-}{
-	{regexp.MustCompile(`cannot use .* in (argument|assignment|return statement|map index|struct literal|array or slice literal|slice literal|map literal|variable declaration|send|range clause|field value|index|switch case|call to \S+)`), "cannot-use-in-$1"},
-	{regexp.MustCompile(`cannot use .* as .* value`), "cannot-use"},
-	{regexp.MustCompile(`mismatched types`), "mismatched-types"},
-	{regexp.MustCompile(`operator (\S+) not defined`), "operator-not-defined"},
-	{regexp.MustCompile(`invalid operation: (cannot call|cannot index|cannot slice|cannot range|shift|division|invalid shift|shifted operand|cannot compare|cannot take|cannot indirect|cannot receive|cannot send)`), "$1"},
-	{regexp.MustCompile(`(too many|not enough|wrong argument count|missing) (arguments|argument|return values) in (conversion|call|return)`), "$1-$2-in-$3"},
-	{regexp.MustCompile(`(too many|not enough) (arguments|return values)`), "$1-$2"},
-	{regexp.MustCompile(`assignment mismatch: .* but (\S+)`), "assignment-mismatch"},
-	{regexp.MustCompile(`cannot convert .* constant`), "constant-conversion"},
-	{regexp.MustCompile(`cannot convert .*\(([a-z]+ ?[a-z]*) (of type|constant)`), "convert-$1"},
-	{regexp.MustCompile(`(overflows|truncated|division by zero|invalid constant|negative shift count|invalid shift count|is not constant|constant .* overflow)`), "$1"},
-	{regexp.MustCompile(`(break|continue|fallthrough|goto)`), "$1"},
-	{regexp.MustCompile(`label`), "label"},
-	{regexp.MustCompile(`(method|field|func|var|const|type)? ?\S+ (already declared|redeclared)`), "$2"},
-	{regexp.MustCompile(`cannot declare (init|main)`), "declare-$1"},
-	{regexp.MustCompile(`is not used|not used`), "$0"},
-	{regexp.MustCompile(`must be integer|invalid argument: index`), "index-must-be-integer"},
-	{regexp.MustCompile(`invalid argument: (\S+ )?.*for (built-in )?(\w+)`), "builtin-$3"},
-	{regexp.MustCompile(`(does not implement|impossible type|cannot infer|not a type|is not a type|cannot assign|cannot take address|invalid use of|invalid receiver|cannot call)`), "$1"},
-}
+// sub-classes. Only the misplaced-branch family is split (by statement keyword): its members are
+// frequent enough to be enumerated. A finer split of the other families (by the context of an
+// assignability error, say) was tried and dropped: over 40000 generated packages it produced classes
+// seen once or twice, i.e. an open tail that a fixed list of findings cannot cover without raising
+// alarms on the unchanged tree at other seeds (DESIGN section 12, C06).
+var branchRe = regexp.MustCompile(`\b(break|continue|fallthrough|goto|label)\b`)
 
-var wordRe = regexp.MustCompile(`[a-z]+`)
-
-func subOf(msg string) string {
-	if i := strings.Index(msg, ": "); i >= 0 && strings.Count(msg[:i], ":") >= 2 { // file:line:col:
-		msg = msg[i+2:]
-	}
-	for _, s := range subRes {
-		if m := s.re.FindStringSubmatchIndex(msg); m != nil {
-			out := string(s.re.ExpandString(nil, strings.ReplaceAll(s.name, "$0", "${0}"), msg, m))
-			out = strings.Join(strings.Fields(out), "-")
-			if len(out) > 40 {
-				out = out[:40]
-			}
-			return out
-		}
+func subOf(family, msg string) string {
+	if family == "misplaced-branch" {
+		return branchRe.FindString(msg)
 	}
 	return ""
 }
@@ -129,7 +96,7 @@ func classOf(msg string) string {
 	for i, re := range familyRes {
 		if re.MatchString(msg) {
 			c := "go-rejects:" + families[i].name
-			if sub := subOf(msg); sub != "" {
+			if sub := subOf(families[i].name, msg); sub != "" {
 				c += "/" + sub
 			}
 			return c
@@ -251,7 +218,7 @@ func TestPackages(t *testing.T) {
 	r := vk.R
 	r.Assume("go/types with the repository's own importer (go list export data) is the Go type checker")
 	var accepted []Case
-	r.Rapid(t, 1, 1500, 40000, func(t *rapid.T) {
+	r.Rapid(t, 1, 3000, 40000, func(t *rapid.T) {
 		d := draw(t)
 		v, in := check(d.c)
 		mutated := len(d.ops) > 0
